@@ -33,37 +33,37 @@ const AltName = "alt.example.test"
 
 // PKI is everything the checks need; built once per process.
 type PKI struct {
-	CA, CA2             *gx509.Certificate
-	CAKey, CA2Key       *sm2.PrivateKey
-	Roots, Roots2       *gx509.CertPool
-	Sign, Enc           gmtls.Certificate // genuine server certificates
-	SignKey, EncKey     *sm2.PrivateKey
-	Client              gmtls.Certificate // client certificate under CA (clientAuth)
-	ClientKey           *sm2.PrivateKey
-	ClientUntrusted     gmtls.Certificate // under CA2
-	ClientExpired       gmtls.Certificate
-	ClientServerEKU     gmtls.Certificate // serverAuth only
-	OtherKey            *sm2.PrivateKey
-	Attacker            gmtls.Certificate // self-signed certificate of OtherKey (subject "attacker")
-	SignUntrusted       gmtls.Certificate // sign cert under CA2
-	EncUntrusted        gmtls.Certificate
-	SignExpired         gmtls.Certificate
-	SignNotYet          gmtls.Certificate
-	SignWrongName       gmtls.Certificate
-	EncWrongName        gmtls.Certificate
-	SignNoKU, EncNoKU   gmtls.Certificate // key usage unsuitable
-	Sign2, Enc2         gmtls.Certificate // a second genuine identity (other keys, same name)
+	CA, CA2           *gx509.Certificate
+	CAKey, CA2Key     *sm2.PrivateKey
+	Roots, Roots2     *gx509.CertPool
+	Sign, Enc         gmtls.Certificate // genuine server certificates
+	SignKey, EncKey   *sm2.PrivateKey
+	Client            gmtls.Certificate // client certificate under CA (clientAuth)
+	ClientKey         *sm2.PrivateKey
+	ClientUntrusted   gmtls.Certificate // under CA2
+	ClientExpired     gmtls.Certificate
+	ClientServerEKU   gmtls.Certificate // serverAuth only
+	OtherKey          *sm2.PrivateKey
+	Attacker          gmtls.Certificate // self-signed certificate of OtherKey (subject "attacker")
+	SignUntrusted     gmtls.Certificate // sign cert under CA2
+	EncUntrusted      gmtls.Certificate
+	SignExpired       gmtls.Certificate
+	SignNotYet        gmtls.Certificate
+	SignWrongName     gmtls.Certificate
+	EncWrongName      gmtls.Certificate
+	SignNoKU, EncNoKU gmtls.Certificate // key usage unsuitable
+	Sign2, Enc2       gmtls.Certificate // a second genuine identity (other keys, same name)
 	// standard TLS identities
-	StdCA               *stdx509.Certificate
-	StdCAKey            *ecdsa.PrivateKey
-	StdRootsG           *gx509.CertPool  // for gmtls clients
-	StdRoots            *stdx509.CertPool // for crypto/tls clients
-	RSA, ECDSA          gmtls.Certificate
-	RSAKey              *rsa.PrivateKey
-	ECDSAKey            *ecdsa.PrivateKey
-	StdClient           gmtls.Certificate // ECDSA client cert under StdCA
-	StdClientUntrusted  gmtls.Certificate // ECDSA client cert under another standard CA
-	RSAGM               gmtls.Certificate // RSA certificate (for the GMSSL client's non-EC check)
+	StdCA              *stdx509.Certificate
+	StdCAKey           *ecdsa.PrivateKey
+	StdRootsG          *gx509.CertPool   // for gmtls clients
+	StdRoots           *stdx509.CertPool // for crypto/tls clients
+	RSA, ECDSA         gmtls.Certificate
+	RSAKey             *rsa.PrivateKey
+	ECDSAKey           *ecdsa.PrivateKey
+	StdClient          gmtls.Certificate // ECDSA client cert under StdCA
+	StdClientUntrusted gmtls.Certificate // ECDSA client cert under another standard CA
+	RSAGM              gmtls.Certificate // RSA certificate (for the GMSSL client's non-EC check)
 }
 
 var (
